@@ -629,6 +629,15 @@ class DataFileManager:
 
             column = table.column(field_name)
 
+            # NaN compares unequal to (and unordered with) every value, and
+            # pc.min/pc.max skip it: bounds computed over the remaining values
+            # would claim "every row lies in [min, max]" while a NaN row does
+            # not. A filter such as `x != c` on a file whose other values all
+            # equal c would then prune away a row that matches. No bounds for
+            # such a column means no pruning for it (correct, less selective).
+            if pa.types.is_floating(column.type) and pc.any(pc.is_nan(column)).as_py():
+                continue
+
             try:
                 # Compute min/max using PyArrow compute
                 min_scalar = pc.min(column)
